@@ -57,3 +57,108 @@ Section FastPath.
     replace (Nat.eqb (v_row v) r) with false by (symmetry; apply Nat.eqb_neq; lia). cbn [andb]. apply Hblank. exact Hr.
   Qed.
 End FastPath.
+
+(* ---------- the OTHER fast path: a cursor motion without redraw (State::move_cursor -> Renderer::move_cursor) ---------- *)
+(* When only the cursor moves (no hint, no highlighter) rustyline writes the relative motion from the old cursor cell to the new
+   one. The bytes are the standard encoding of at most two terminal operations; on a terminal whose cursor is on the old
+   cell, they put the cursor on the new cell and change nothing on the screen. *)
+Definition move_ops (old new : pos2) : list op :=
+  (if Nat.ltb (p_row old) (p_row new) then [if Nat.eqb (p_row new - p_row old) 1 then ODown1 else ODown (p_row new - p_row old)]
+   else if Nat.ltb (p_row new) (p_row old) then [if Nat.eqb (p_row old - p_row new) 1 then OUp1 else OUp (p_row old - p_row new)]
+   else [])
+  ++ (if Nat.ltb (p_col old) (p_col new) then [if Nat.eqb (p_col new - p_col old) 1 then ORight1 else ORight (p_col new - p_col old)]
+      else if Nat.ltb (p_col new) (p_col old) then [if Nat.eqb (p_col old - p_col new) 1 then OLeft1 else OLeft (p_col old - p_col new)]
+      else []).
+
+Theorem move_bytes_encode old new : move_cursor_bytes old new = encode_all (move_ops old new).
+Proof.
+  unfold move_cursor_bytes, move_ops, move_one_or_n. rewrite encode_all_app.
+  f_equal.
+  - destruct (Nat.ltb (p_row old) (p_row new)); [destruct (Nat.eqb (p_row new - p_row old) 1); cbn; rewrite ?app_nil_r; reflexivity|].
+    destruct (Nat.ltb (p_row new) (p_row old)); [destruct (Nat.eqb (p_row old - p_row new) 1); cbn; rewrite ?app_nil_r; reflexivity|reflexivity].
+  - destruct (Nat.ltb (p_col old) (p_col new)); [destruct (Nat.eqb (p_col new - p_col old) 1); cbn; rewrite ?app_nil_r; reflexivity|].
+    destruct (Nat.ltb (p_col new) (p_col old)); [destruct (Nat.eqb (p_col old - p_col new) 1); cbn; rewrite ?app_nil_r; reflexivity|reflexivity].
+Qed.
+
+Section MoveCursor.
+  Variable W : nat.
+  Hypothesis HW : 1 <= W.
+
+  Definition vops (r0 r1 : nat) : list op :=
+    if Nat.ltb r0 r1 then [if Nat.eqb (r1 - r0) 1 then ODown1 else ODown (r1 - r0)]
+    else if Nat.ltb r1 r0 then [if Nat.eqb (r0 - r1) 1 then OUp1 else OUp (r0 - r1)] else [].
+  Definition hops (c0 c1 : nat) : list op :=
+    if Nat.ltb c0 c1 then [if Nat.eqb (c1 - c0) 1 then ORight1 else ORight (c1 - c0)]
+    else if Nat.ltb c1 c0 then [if Nat.eqb (c0 - c1) 1 then OLeft1 else OLeft (c0 - c1)] else [].
+
+  Lemma move_ops_split old new : move_ops old new = vops (p_row old) (p_row new) ++ hops (p_col old) (p_col new).
+  Proof. reflexivity. Qed.
+
+  Lemma vmove v r0 r1 :
+    v_row v = r0 ->
+    let v' := run W (vops r0 r1) v in
+    v_row v' = r1 /\ v_col v' = v_col v /\ v_cells v' = v_cells v
+    /\ v_pending v' = (if Nat.eqb r0 r1 then v_pending v else false).
+  Proof.
+    intros Hr. unfold vops.
+    destruct (Nat.ltb r0 r1) eqn:E1; [apply Nat.ltb_lt in E1|apply Nat.ltb_ge in E1].
+    - replace (Nat.eqb r0 r1) with false by (symmetry; apply Nat.eqb_neq; lia).
+      destruct (Nat.eqb (r1 - r0) 1) eqn:D; cbn [run fold_left run1 down v_row v_col v_cells v_pending];
+        try apply Nat.eqb_eq in D; repeat split; lia.
+    - destruct (Nat.ltb r1 r0) eqn:E2; [apply Nat.ltb_lt in E2|apply Nat.ltb_ge in E2].
+      + replace (Nat.eqb r0 r1) with false by (symmetry; apply Nat.eqb_neq; lia).
+        destruct (Nat.eqb (r0 - r1) 1) eqn:D; cbn [run fold_left run1 up v_row v_col v_cells v_pending];
+          try apply Nat.eqb_eq in D; repeat split; lia.
+      + replace (Nat.eqb r0 r1) with true by (symmetry; apply Nat.eqb_eq; lia).
+        cbn [run fold_left]. repeat split; lia.
+  Qed.
+
+  Lemma hmove v c0 c1 :
+    v_col v = c0 -> c1 < W ->
+    let v' := run W (hops c0 c1) v in
+    v_row v' = v_row v /\ v_col v' = c1 /\ v_cells v' = v_cells v
+    /\ v_pending v' = (if Nat.eqb c0 c1 then v_pending v else false).
+  Proof.
+    intros Hc Hlt. unfold hops.
+    destruct (Nat.ltb c0 c1) eqn:E1; [apply Nat.ltb_lt in E1|apply Nat.ltb_ge in E1].
+    - replace (Nat.eqb c0 c1) with false by (symmetry; apply Nat.eqb_neq; lia).
+      destruct (Nat.eqb (c1 - c0) 1) eqn:D; cbn [run fold_left run1 right v_row v_col v_cells v_pending];
+        try apply Nat.eqb_eq in D; repeat split; lia.
+    - destruct (Nat.ltb c1 c0) eqn:E2; [apply Nat.ltb_lt in E2|apply Nat.ltb_ge in E2].
+      + replace (Nat.eqb c0 c1) with false by (symmetry; apply Nat.eqb_neq; lia).
+        destruct (Nat.eqb (c0 - c1) 1) eqn:D; cbn [run fold_left run1 left v_row v_col v_cells v_pending];
+          try apply Nat.eqb_eq in D; repeat split; lia.
+      + replace (Nat.eqb c0 c1) with true by (symmetry; apply Nat.eqb_eq; lia).
+        cbn [run fold_left]. repeat split; lia.
+  Qed.
+
+  Theorem move_cursor_ok (old new : pos2) (v : vt) :
+    cursor_cell v = (p_row old, p_col old) ->
+    p_col new < W ->
+    let v' := run W (move_ops old new) v in
+    cursor_cell v' = (p_row new, p_col new)
+    /\ (forall r c, v_cells v' r c = v_cells v r c)
+    /\ (pos2_eqb old new = false -> v_pending v' = false)
+    /\ (pos2_eqb old new = true -> v' = v).
+  Proof.
+    intros Hc Hn. unfold cursor_cell in Hc. inversion Hc as [[Hr Hcol]]. clear Hc.
+    intros v'. unfold v'. rewrite move_ops_split.
+    assert (Happ : forall a b x, run W (a ++ b) x = run W b (run W a x)) by (intros; unfold run; apply fold_left_app).
+    rewrite Happ.
+    destruct (vmove v (p_row old) (p_row new) Hr) as [A1 [A2 [A3 A4]]].
+    set (v1 := run W (vops (p_row old) (p_row new)) v) in *.
+    assert (Hc1 : v_col v1 = p_col old) by (rewrite A2; exact Hcol).
+    destruct (hmove v1 (p_col old) (p_col new) Hc1 Hn) as [B1 [B2 [B3 B4]]].
+    set (v2 := run W (hops (p_col old) (p_col new)) v1) in *.
+    split; [unfold cursor_cell; rewrite B1, B2, A1; reflexivity|].
+    split; [intros r c; rewrite B3, A3; reflexivity|].
+    unfold pos2_eqb. split.
+    - intros Hne. rewrite B4. destruct (Nat.eqb (p_col old) (p_col new)); [|reflexivity].
+      cbn [andb] in Hne. rewrite A4, Hne. reflexivity.
+    - intros Heq. apply andb_prop in Heq. destruct Heq as [E1 E2].
+      rewrite E1 in B4. rewrite E2 in A4.
+      destruct v as [r0 c0 p0 cells0], v2 as [r2 c2 p2 cells2] eqn:Ev2. cbn [v_row v_col v_pending v_cells] in *.
+      apply Nat.eqb_eq in E1. apply Nat.eqb_eq in E2.
+      f_equal; try congruence; try lia.
+  Qed.
+End MoveCursor.
